@@ -17,6 +17,7 @@ Clauses of the property and where they are stated (all over `Rat`, any table siz
 import FairModel.Lemmas.Saddle
 import FairModel.Lemmas.EGLoop
 import FairModel.Lemmas.LinProg
+import FairModel.Lemmas.EGCert
 
 namespace C08
 open Saddle Finset
@@ -566,6 +567,142 @@ theorem lp_gap_zero_optimal (T : Table) (B : Rat) (Q lam : List Rat) (hQ : Q.len
     exact this
 
 end LP
+
+/-! ## The certificate computed by `eval_gap` (the `[1, 2, 5, 10]` loop with its early break), in the property's words
+
+`TC` is the table of the WHOLE hypothesis class; the store `hs` and every oracle answer are members of it.
+`evalGap X O hs k Q lamHat` is `eval_gap(Q, lambda_hat, nu)` run on the store `hs`, the oracle answering `O k, O (k+1), ...`. -/
+section Cert
+open EGLoop
+
+/-- the smallest Lagrangian value over the class, capped by `L` (what `L_low` would be with every class member as candidate) -/
+def classLow (TC : Table) (lamP : Nat → Rat) (L : Rat) : Rat :=
+  (List.range TC.nH).foldl (fun acc i => if lPure TC lamP i < acc then lPure TC lamP i else acc) L
+
+/-- the TRUE duality gap over the class of a pair whose `L`, `L_high` are given -/
+def classGap (TC : Table) (lamP : Nat → Rat) (L Lhigh : Rat) : Rat := EGGen.gapOf L (classLow TC lamP L) Lhigh
+
+theorem evalGap_fields (X : Ctx) (O : Nat → Hyp) (hs : List Hyp) (k : Nat) (Q lamHat : List Rat) :
+    (evalGap X O hs k Q lamHat).2.2.L = lagr (tableOf X.c hs) (vec Q) (projLam X lamHat) ∧
+    (evalGap X O hs k Q lamHat).2.2.Lhigh = lHigh (tableOf X.c hs) X.B (vec Q) ∧
+    (evalGap X O hs k Q lamHat).2.2.Llow ≤ (evalGap X O hs k Q lamHat).2.2.L := by
+  unfold evalGap
+  obtain ⟨h1, h2, h3⟩ := evalLoop_fixed X O lamHat EGGen.muls hs k
+    ⟨lagr (tableOf X.c hs) (vec Q) (projLam X lamHat), lagr (tableOf X.c hs) (vec Q) (projLam X lamHat),
+      lHigh (tableOf X.c hs) X.B (vec Q)⟩
+  exact ⟨h1, h2, by rw [h1]; exact h3⟩
+
+theorem gapOf_mono_low (L a b H : Rat) (h : a ≤ b) : EGGen.gapOf L b H ≤ EGGen.gapOf L a H := by
+  unfold EGGen.gapOf EGGen.max2
+  split <;> split <;> linarith
+
+/-- **(3a, any oracle)** whatever classifiers of the class the oracle answers with — exact or not —, the `L_low` of
+    `eval_gap` is at least the true minimum over the class (capped by `L`), hence the REPORTED gap never exceeds the
+    true duality gap of `(Q, lambda_hat)`: inexact oracles can only make the certificate optimistic, never pessimistic.
+    (`hL`: `L` itself is at least the class minimum — true for every distribution `Q` over stored class members.) -/
+theorem evalGap_gap_le_classGap (X : Ctx) (O : Nat → Hyp) (TC : Table) (hc : TC.nC = X.c.length) (hcc : TC.c = vec X.c)
+    (hO : ∀ k, ∃ i, IsMember TC (O k) i) (hs : List Hyp) (hmem : Members TC hs) (k : Nat) (Q lamHat : List Rat) :
+    (evalGap X O hs k Q lamHat).2.2.gap ≤
+      classGap TC (projLam X lamHat) (evalGap X O hs k Q lamHat).2.2.L (evalGap X O hs k Q lamHat).2.2.Lhigh := by
+  obtain ⟨hL, hH, _⟩ := evalGap_fields X O hs k Q lamHat
+  have hlow : classLow TC (projLam X lamHat) (evalGap X O hs k Q lamHat).2.2.L ≤ (evalGap X O hs k Q lamHat).2.2.Llow := by
+    have h := (evalLoop_members X O lamHat TC hc hcc hO
+      (classLow TC (projLam X lamHat) (lagr (tableOf X.c hs) (vec Q) (projLam X lamHat)))
+      (fun i hi => foldMin_le_mem _ _ _ i (List.mem_range.mpr hi)) EGGen.muls hs k
+      ⟨lagr (tableOf X.c hs) (vec Q) (projLam X lamHat), lagr (tableOf X.c hs) (vec Q) (projLam X lamHat),
+        lHigh (tableOf X.c hs) X.B (vec Q)⟩ hmem (foldMin_le_init _ _ _)).2
+    rw [hL]
+    exact h
+  unfold GapRes.gap classGap
+  exact gapOf_mono_low _ _ _ _ hlow
+
+/-- **(3a, exact oracle at mul = 1)** this is the ONLY inequality that needs exactness: if the answer to the FIRST
+    best-response call of `eval_gap` (the one at `1 * lambda_hat`) minimises `h_value` over the class, then `L_low` is at
+    most the class minimum PLUS `_PRECISION` — `best_h` returns a stored classifier instead of the oracle's answer
+    whenever the improvement is below `_PRECISION` — so the true gap is at most the reported gap plus `_PRECISION`.
+    The later multipliers `2, 5, 10` and the early break play no role. -/
+theorem evalGap_Llow_le_class (X : Ctx) (O : Nat → Hyp) (TC : Table) (hc : TC.nC = X.c.length) (hcc : TC.c = vec X.c)
+    (ha : AntiSym X TC) (hs : List Hyp) (hmem : Members TC hs) (k : Nat) (Q lamHat : List Rat)
+    (hOk : ∃ i, IsMember TC (O k) i) (hexact : ∀ i < TC.nH, storedValue lamHat (O k) ≤ classValue TC lamHat i) :
+    ∀ i < TC.nH, (evalGap X O hs k Q lamHat).2.2.Llow ≤ lPure TC (projLam X lamHat) i + EGGen.precision := by
+  intro i hi
+  have hmuls : EGGen.muls = 1 :: EGGen.muls.tail := by simp [EGGen.muls]
+  unfold evalGap
+  rw [hmuls]
+  refine le_trans (evalLoop_first X O lamHat 1 _ hs k _) ?_
+  rw [map_one_mul]
+  have hidx := bestH_idx_lt hs lamHat (O k)
+  have hmem' := bestH_members TC hs lamHat (O k) hmem hOk
+  obtain ⟨r, hr⟩ := hmem' _ (getD_mem _ _ hidx)
+  have h1 : lagr (tableOf X.c (bestH hs lamHat (O k)).1) (unit (bestH hs lamHat (O k)).2) (projLam X lamHat)
+      = lPure TC (projLam X lamHat) r := lPure_member TC X.c hc hcc _ (projLam X lamHat) _ hidx r hr
+  rw [h1, lPure_as_value X TC hc ha lamHat r hr.1, lPure_as_value X TC hc ha lamHat i hi,
+    ← storedValue_member TC _ r hr lamHat]
+  have := (bestH_value hs lamHat (O k)).1
+  linarith [hexact i hi]
+
+theorem classLow_ge (TC : Table) (lamP : Nat → Rat) (L m : Rat) (h1 : m ≤ L) (h2 : ∀ i < TC.nH, m ≤ lPure TC lamP i) :
+    m ≤ classLow TC lamP L :=
+  le_foldMin _ m _ L h1 (fun i hi => h2 i (List.mem_range.mp hi))
+
+/-- **(3a)** ... hence with an exact oracle at `mul = 1`: `true gap <= reported gap + _PRECISION`. -/
+theorem classGap_le_evalGap_gap (X : Ctx) (O : Nat → Hyp) (TC : Table) (hc : TC.nC = X.c.length) (hcc : TC.c = vec X.c)
+    (ha : AntiSym X TC) (hs : List Hyp) (hmem : Members TC hs) (k : Nat) (Q lamHat : List Rat)
+    (hOk : ∃ i, IsMember TC (O k) i) (hexact : ∀ i < TC.nH, storedValue lamHat (O k) ≤ classValue TC lamHat i) :
+    classGap TC (projLam X lamHat) (evalGap X O hs k Q lamHat).2.2.L (evalGap X O hs k Q lamHat).2.2.Lhigh
+      ≤ (evalGap X O hs k Q lamHat).2.2.gap + EGGen.precision := by
+  have hprec : (0 : Rat) ≤ EGGen.precision := by norm_num [EGGen.precision]
+  have hle := evalGap_Llow_le_class X O TC hc hcc ha hs hmem k Q lamHat hOk hexact
+  obtain ⟨_, _, hlowL⟩ := evalGap_fields X O hs k Q lamHat
+  have hcl : (evalGap X O hs k Q lamHat).2.2.Llow - EGGen.precision
+      ≤ classLow TC (projLam X lamHat) (evalGap X O hs k Q lamHat).2.2.L :=
+    classLow_ge TC _ _ _ (by linarith) (fun i hi => by linarith [hle i hi])
+  unfold classGap GapRes.gap EGGen.gapOf EGGen.max2
+  split <;> split <;> linarith
+
+/-- **(3b) the two guarantees, stated for the OUTPUT of `eval_gap`** (any store of class members, any `Q`, any
+    `lambda_hat` whose projected version is non-negative, exact oracle at `mul = 1`): with `g` the reported gap,
+    `error(Q) <= error(Q*) + 2 g + _PRECISION` for every feasible distribution `Q*` over the class, and every constraint
+    of `Q` exceeds its bound by at most `(1 + 2 g + _PRECISION)/B`. -/
+theorem evalGap_guarantees (X : Ctx) (O : Nat → Hyp) (TC : Table) (hc : TC.nC = X.c.length) (hcc : TC.c = vec X.c)
+    (ha : AntiSym X TC) (hs : List Hyp) (hmem : Members TC hs) (k : Nat) (Q lamHat : List Rat)
+    (hOk : ∃ i, IsMember TC (O k) i) (hexact : ∀ i < TC.nH, storedValue lamHat (O k) ≤ classValue TC lamHat i)
+    (hB : 0 < X.B) (hlam : ∀ j < TC.nC, 0 ≤ projLam X lamHat j) (Q' : Nat → Rat) (hf : Feasible TC Q') :
+    errQ (tableOf X.c hs) (vec Q) ≤ errQ TC Q' + 2 * (evalGap X O hs k Q lamHat).2.2.gap + EGGen.precision ∧
+    (0 ≤ errQ (tableOf X.c hs) (vec Q) → errQ TC Q' ≤ 1 → ∀ j < X.c.length,
+      gamQ (tableOf X.c hs) (vec Q) j - vec X.c j
+        ≤ (1 + 2 * (evalGap X O hs k Q lamHat).2.2.gap + EGGen.precision) / X.B) := by
+  obtain ⟨hL, hH, _⟩ := evalGap_fields X O hs k Q lamHat
+  have hle := evalGap_Llow_le_class X O TC hc hcc ha hs hmem k Q lamHat hOk hexact
+  have hg : (evalGap X O hs k Q lamHat).2.2.L - (evalGap X O hs k Q lamHat).2.2.Llow ≤ (evalGap X O hs k Q lamHat).2.2.gap ∧
+      (evalGap X O hs k Q lamHat).2.2.Lhigh - (evalGap X O hs k Q lamHat).2.2.L ≤ (evalGap X O hs k Q lamHat).2.2.gap := by
+    unfold GapRes.gap EGGen.gapOf
+    exact ⟨max2_ge_left _ _, max2_ge_right _ _⟩
+  -- L_low - precision is below the Lagrangian of every mixture over the class, in particular of Q'
+  have hmix : (evalGap X O hs k Q lamHat).2.2.Llow - EGGen.precision ≤ lagr TC Q' (projLam X lamHat) := by
+    rw [lagr_mix TC Q' _ hf.sum_one]
+    calc (evalGap X O hs k Q lamHat).2.2.Llow - EGGen.precision
+        = ∑ i ∈ range TC.nH, Q' i * ((evalGap X O hs k Q lamHat).2.2.Llow - EGGen.precision) := by
+          rw [← Finset.sum_mul, hf.sum_one, one_mul]
+      _ ≤ ∑ i ∈ range TC.nH, Q' i * lPure TC (projLam X lamHat) i := by
+          apply Finset.sum_le_sum
+          intro i hi
+          have hi' := Finset.mem_range.mp hi
+          exact mul_le_mul_of_nonneg_left (by linarith [hle i hi']) (hf.nonneg i hi')
+  have hfe := lagr_feasible_le TC (projLam X lamHat) Q' hlam hf.meets
+  have hhigh := lHigh_ge (tableOf X.c hs) X.B (le_of_lt hB) (vec Q)
+  rw [← hH] at hhigh
+  constructor
+  · linarith [hhigh.1]
+  · intro he0 he1 j hj
+    have := hhigh.2 j hj
+    rw [le_div_iff₀ hB]
+    unfold viol at this
+    have hcj : (tableOf X.c hs).c j = vec X.c j := rfl
+    rw [hcj] at this
+    linarith
+
+end Cert
 
 /-! Non-vacuity for the loop: a 2-constraint run with a positive "exponential", two oracle answers. -/
 def exP : EGLoop.Params := ⟨4, 2, 1/100, 3, false, true, [1/10, 1/10], fun x => 1 + x * x⟩
